@@ -90,7 +90,11 @@ func checkLong(c Case, nz *noiser) error {
 				return fmt.Errorf("DistanceHaversine(%v,%v) = %v, great-circle model %v (segment %d, repetition %d)", ls[i], ls[i-1], h, segM[i-1], i, rep)
 			}
 			sh += h
-			se += geo.Distance(ls[i], ls[i-1])
+			e, eb := geo.Distance(ls[i], ls[i-1]), geo.Distance(ls[i-1], ls[i])
+			if math.Float64bits(e) != math.Float64bits(eb) {
+				return fmt.Errorf("Distance not symmetric: d(%v,%v)=%v but reversed %v (segment %d, repetition %d)", ls[i], ls[i-1], e, eb, i, rep)
+			}
+			se += e
 		}
 		nz.call()
 		if lh2 := geo.LengthHaversine(ls); !(math.Abs(lh2-sh) <= relLength*sh) {
